@@ -809,7 +809,26 @@ def extension_stream(ctx):
             w2[v] = w1[v] + [(t, rng.choice((-9.0, 9.0, 100.0, -100.0, 0.0))) for (t, _) in tail]
         ctx.evaluations += 1
         ctx.count("stream:ext-c")
-        v = check_extension(ctx, f, w1, w2)
+        if rng.random() < 0.2:
+            # one bounded future operator directly over a shallow operand, its interval spelled with units (the conversion of the
+            # two bounds must not depend on each other's unit: a too wide window reads beyond t + b)
+            a_ = rng.randint(0, 4)
+            f = ("tb1", rng.choice(["ev", "alw"]), a_, a_ + rng.randint(1, 4), g.formula(rng.choice([0, 0, 1])))
+            if rng.random() < 0.3:
+                f = ("b", rng.choice(["and", "or"]), f, g.formula(rng.choice([0, 1])))
+            vs = F.variables(f) or ["x"]
+            w1 = gen_signals(rng, vs)
+            end1 = max(s_[-1][0] for s_ in w1.values())
+            w2 = {}
+            for v_ in vs:
+                tail = gen_signal(rng, end1 + GRID * rng.choice([1, 2, 4]), nmax=4)
+                w2[v_] = w1[v_] + [(t_, rng.choice((-9.0, 9.0, 100.0, -100.0, 0.0))) for (t_, _) in tail]
+            us = rng.randint(0, 10 ** 6)
+        else:
+            us = rng.randint(0, 10 ** 6) if rng.random() < 0.3 and any(x[0] in ("tb1", "tb2") for x in F.subformulas(f)) else None
+        if us is not None:
+            ctx.count("stream:ext-c/units")
+        v = check_extension(ctx, f, w1, w2, us)
         if v is None:
             ctx.traces_validated += 1
         else:
@@ -827,11 +846,17 @@ def strip_unsupported(f):
     return f
 
 
-def check_extension(ctx, f, w1, w2):
-    t1, o1 = eval_offline(f, w1)
-    t2, o2 = eval_offline(f, w2)
+def check_extension(ctx, f, w1, w2, units_seed=None):
+    text = None
+    if units_seed is not None:
+        # the same durations with explicit units on either / both bounds (possibly two different units on one interval)
+        import random
+        from .props import c08
+        text = c08.render(random.Random(units_seed), f, "s", int(SCALE * 10 ** 9), [])
+    t1, o1 = eval_offline(f, w1, text=text)
+    t2, o2 = eval_offline(f, w2, text=text)
     h = dense_horizon(f)
-    rep = {"monitor": "offc", "spec": t1, "formula": F.to_proto(f), "w1": sig_rep(w1), "w2": sig_rep(w2), "horizon": str(h),
+    rep = {"monitor": "offc", "units_seed": units_seed, "spec": t1, "formula": F.to_proto(f), "w1": sig_rep(w1), "w2": sig_rep(w2), "horizon": str(h),
            "impl_w1": o1, "impl_w2": o2}
     if o1[0] != "ok" or o2[0] != "ok":
         return Violation("dense offline raised %r / %r: %s" % (o1[:2], o2[:2], t1), rep, stream="ext-c")
@@ -1101,6 +1126,16 @@ def ia_stream(ctx):
             ctx.diffs.append(Violation("the dense offline visitor translated from the source gives %r on the transformed formula, the monitor under %s "
                                        "semantics returned %r: %s" % (m[1], p_[1], raw, p_[3]),
                                        dict(p_[8], translated=[[str(t), v] for t, v in m[1]]), failing_input=False, stream="ia-c/translated"))
+    # the interface-aware online classes as translated from the source (`denseongen` on the transformed formula: an insensitive
+    # predicate of a robustness semantics is an `IAPredicateOperation` object of GeneratedDenseOn.lean)
+    for p_, m in zip(ons, alg_online_query([(p_[4], p_[5], p_[9]) for p_ in ons], cmd="denseongen")):
+        raw = p_[8]["raw"]
+        ctx.count("ia-translated:onc/%s" % (m[0] if m[0] != "err" else "err-" + m[1]))
+        flat = [x for row in m[1] for x in row] if m[0] == "ok" else None
+        if m[0] == "ok" and not any(x[1] != x[1] for x in raw) and not same_samples(raw, flat):
+            ctx.diffs.append(Violation("the dense online classes translated from the source give %r on the transformed formula, the monitor under %s "
+                                       "semantics returned %r: %s" % (flat, p_[1], raw, p_[3]),
+                                       dict(p_[8], translated=[[str(t), v] for t, v in flat]), failing_input=False, stream="ia-c/translated"))
     for (mon, sem, io, text, tf, sig, a, qs, rep, cuts), m in mirr:
         ctx.count("ia-mirror:%s/%s" % (mon, m[0] if m[0] != "err" else "err-" + m[1]))
         raw = rep["raw"]
